@@ -118,7 +118,8 @@ def run(ctx):
     printers = {d for dep, d in M.f.inlined}
     adders = {d for dep, d in inline.inlined(facts, add_header.id, stop=lambda d: facts.fns[d].rec.get("local") and facts.fns[d].file != add_header.file).inlined}
     n = 0
-    for g, bb, kind, x in facts.field_writes(RESP, "headers"):
+    h_owner, h_field = shared.owner_of_path(facts, RESP, M.headers_path)
+    for g, bb, kind, x in facts.field_writes(h_owner, h_field):
         n += 1
         if kind == "drop":
             continue
@@ -126,13 +127,17 @@ def run(ctx):
         ctx.ob("C19.2", "headers-write|%s|%s" % (g.id, kind), "the header list is written only when a Response is built, by add_header (and its helpers) and by raw_print's automatic headers", ok, g.loc(bb))
     ctx.floor("C19.2 writes of Response.headers", n, 5)
     # new(): starts empty; the parameter flows only into add_header
-    for g, bb, s in facts.constructions(RESP):
-        if g.id != rnew.id:
+    new_fns = {d for dep, d in inline.inlined(facts, rnew.id, stop=lambda d: facts.fns[d].rec.get("local") and facts.fns[d].file != rnew.file).inlined} | {rnew.id}
+    n_cons = 0
+    for g, bb, s in facts.constructions(h_owner):
+        if g.id not in new_fns:
             continue
+        n_cons += 1
         r = s["rhs"]
-        o = g.origin(r["ops"][r["fields"].index("headers")])
+        o = g.origin(r["ops"][r["fields"].index(h_field)])
         ok = o[0] == "call" and re.search(r"Vec::<T>::(with_capacity|new)$", o[1]) is not None
         ctx.ob("C19.2", "%s|starts-empty" % g.id, "a new Response starts with an empty header list (not the caller's vector)", ok, g.loc(bb), origin_str(o))
+    ctx.floor("C19.2 constructions of the header list in the constructor", n_cons, 1)
     adds = rnew.call_blocks(lambda t: call_is(t, add_header.id))
     ctx.ob("C19.2", "%s|param-through-add_header" % rnew.id, "the constructor adds the supplied headers one by one through add_header", len(adds) >= 1 and all(rnew.in_loop(b) for b in adds), "%s:%d" % (rnew.file, rnew.line))
     # uses of the `headers` parameter (local 2): only into_iter
@@ -234,7 +239,7 @@ def run(ctx):
     ctx.ob("C19.4", "%s|stores-arguments" % wd.id, "with_data stores the reader and length it is given", ok, "%s:%d" % (wd.file, wd.line))
 
     # ---- C19.5 serialisation: each stored header once, in order
-    wmh = facts.fn("response::write_message_header")
+    wmh = M.head_writer
     ctx.touch(wmh)
     iters = [bb for bb, t in wmh.calls() if call_matches(t, r"<impl \[T\]>::iter$|<impl \[common::Header\]>::iter$")]
     nexts = [bb for bb, t in wmh.calls() if call_matches(t, r"slice::Iter<.*> as std::iter::Iterator>::next$")]
